@@ -278,6 +278,10 @@ func (w *World) Violate(prop, sig, detail string) {
 		// C03: "... or offered again after truncation"; "the transaction index always points at the vertex that holds it"
 		w.Violate("C03", "after-truncation/"+sig, detail)
 	}
+	if w.Report["C05"] && prop == "C02" && (strings.HasPrefix(sig, "overdrawn/own-history") || strings.HasPrefix(sig, "overdrawn/single-chain") || strings.HasPrefix(sig, "overdrawn/overspend-probe")) {
+		// C05: a wallet whose confirmed spends exceed what it received has created value
+		w.Violate("C05", "value-not-conserved-in-ledger/"+sig, detail)
+	}
 	if !w.Report[prop] {
 		// observed by an oracle of another property than the one under check: counted, not reported
 		w.Res.Count("seen_by_other_oracle/"+prop+"/"+sig, 1)
